@@ -23,6 +23,7 @@ import (
 	"github.com/boombuler/barcode/pdf417"
 	"github.com/boombuler/barcode/qr"
 	"github.com/boombuler/barcode/twooffive"
+	"github.com/boombuler/barcode/utils"
 )
 
 type ColorSpec struct {
@@ -42,6 +43,8 @@ func (c ColorSpec) Color() color.Color {
 		return color.NRGBA{R: uint8(c.V[0]), G: uint8(c.V[1]), B: uint8(c.V[2]), A: uint8(c.V[3])}
 	case "cmyk":
 		return color.CMYK{C: uint8(c.V[0]), M: uint8(c.V[1]), Y: uint8(c.V[2]), K: uint8(c.V[3])}
+	case "slice": // a caller-defined colour type that is NOT comparable (a slice): `a == b` on two of them panics
+		return SliceColor{c.V[0], c.V[1], c.V[2], c.V[3]}
 	case "custom": // a caller-defined colour type (comparable value)
 		return CustomColor{c.V[0], c.V[1], c.V[2], c.V[3]}
 	case "uniform": // *image.Uniform, as image.Black / image.White are: a pointer; one instance per value
@@ -55,6 +58,13 @@ func (c ColorSpec) Color() color.Color {
 		return u
 	}
 	return color.Gray16{Y: c.V[0]}
+}
+
+// SliceColor: ink coverages kept in a slice; implements color.Color, cannot be compared with ==.
+type SliceColor []uint16
+
+func (c SliceColor) RGBA() (r, g, b, a uint32) {
+	return uint32(c[0]), uint32(c[1]), uint32(c[2]), uint32(c[3])
 }
 
 // CustomColor: a colour type of the caller's own (16-bit alpha-premultiplied components).
@@ -81,9 +91,13 @@ func ColorModelOf(name string) color.Model {
 		return color.NRGBAModel
 	case "cmyk":
 		return color.CMYKModel
+	case "palette": // image/color's own Palette type is a slice: a model value that cannot be compared or hashed
+		return palette
 	}
 	return color.Gray16Model
 }
+
+var palette = color.Palette{color.RGBA{255, 255, 255, 255}, color.RGBA{0, 0, 0, 255}, color.RGBA{200, 0, 0, 255}, color.RGBA{0, 0, 160, 255}}
 
 type SchemeSpec struct {
 	Predefined int       `json:"predefined"`      // 0 = custom, 1..4 = ColorScheme8/16/24/32
@@ -128,8 +142,40 @@ func Is2D(fam string) bool {
 
 // encodeSpec performs the call. The content is copied first, so that the caller's buffer in
 // the spec is never handed to the library.
+// ForeignUtils uses the exported utils API the way an application with its own Reed-Solomon code would: fields with
+// the library's own primitive polynomials but another generator base, fields of the library's sizes with other
+// polynomials, encoders asked for many check symbols. Barcode encoders must not be influenced by it (and vice
+// versa). Returns a digest of the results.
+func ForeignUtils(variant int) string {
+	type fs struct{ pp, size, base int }
+	all := []fs{{0x12D, 256, 0}, {0x11D, 256, 1}, {0x12B, 256, 0}, {0x43, 64, 0}, {0x13, 16, 0}, {0x19, 16, 1}, {0x409, 1024, 0}, {0x1069, 4096, 0}, {0x805, 2048, 1}}
+	h := 0
+	for i, f := range all {
+		if variant > 0 && (i+variant)%3 == 0 {
+			continue
+		}
+		gf := utils.NewGaloisField(f.pp, f.size, f.base)
+		rs := utils.NewReedSolomonEncoder(gf)
+		data := make([]int, 20)
+		for k := range data {
+			data[k] = (k*7 + variant + i) % f.size
+		}
+		for _, n := range []int{3, 10, min(68, f.size-2), 7} {
+			for _, c := range rs.Encode(data, n) {
+				h = h*31 + c
+			}
+		}
+		h = h*31 + gf.Multiply(3%f.size, 5%f.size)
+	}
+	return fmt.Sprint(h)
+}
+
 func Encode(s EncSpec) (bc barcode.Barcode, err error, pv any) {
 	content := string(s.Content)
+	if s.Fam == "utils" { // not an encoder call: foreign use of the exported utils API (see ForeignUtils)
+		pv = Try(func() { err = fmt.Errorf("utils:%s", ForeignUtils(s.A)) })
+		return nil, err, pv
+	}
 	pv = Try(func() {
 		var ics barcode.BarcodeIntCS
 		if s.Scheme == nil {
